@@ -79,6 +79,8 @@ class Sched:
     self.choices = []        # per step: (chosen name, sorted runnable names)
     self.last = None
     self.observers = []      # callables invoked (in the scheduler thread) after every step
+    self.stalls = []         # (thread, now, duration): injected delays ("this thread was slow here")
+    self.on_stall = None
 
   # ---- called from managed threads -----------------------------------------
   def me(self):
@@ -157,6 +159,19 @@ class Sched:
       if self.steps >= self.max_steps:
         self.outcome = "bound"
         break
+      stall = getattr(self.policy, "stall", None)
+      if stall is not None:
+        # a slow thread: it is ready to run but does not get the processor for `d` units of (virtual) time,
+        # while the clock and the other threads go on
+        r = stall(runnable, self)
+        if r is not None:
+          svt, d = r
+          svt.wake = self.now + d
+          self.stalls.append((svt.name, self.now, d))
+          self.choices.append(("~stall:%s:%s" % (svt.name, d), sorted(x.name for x in runnable)))
+          if self.on_stall is not None:
+            self.on_stall(svt.name, d)
+          continue
       vt = self.policy.choose(runnable, self)
       self.choices.append((vt.name, sorted(x.name for x in runnable)))
       self.steps += 1
@@ -270,7 +285,20 @@ class ReplayPolicy(Policy):
     self.names, self.i, self.fallback, self.strict, self.time_limit = list(names), 0, fallback, strict, time_limit
     self.diverged = None
 
+  def stall(self, runnable, sched):
+    if self.i < len(self.names) and self.names[self.i].startswith("~stall:"):
+      _, name, d = self.names[self.i].split(":")
+      self.i += 1
+      for vt in runnable:
+        if vt.name == name:
+          return vt, float(d) if "." in d else int(d)
+      if self.diverged is None:
+        self.diverged = (self.i - 1, "stall " + name, sorted(v.name for v in runnable))
+    return None
+
   def choose(self, runnable, sched):
+    while self.i < len(self.names) and self.names[self.i].startswith("~stall:"):
+      self.i += 1
     if self.i < len(self.names):
       want = self.names[self.i]
       self.i += 1
@@ -319,6 +347,44 @@ class FairSuffix(Policy):
 
   def choose(self, runnable, sched):
     return self.first.choose(runnable, sched) if sched.steps < self.n else self.rr.choose(runnable, sched)
+
+  def stall(self, runnable, sched):
+    f = getattr(self.first, "stall", None)
+    return f(runnable, sched) if f is not None and sched.steps < self.n else None
+
+
+class StallPolicy(Policy):
+  """`inner`, plus at most `max_stalls` injected delays: with probability p per step a runnable thread (whose name
+  starts with one of `only`, if given) is held back for a duration from `durations`.  Models a thread that is slow
+  (pre-empted by the OS, starved of the GIL, a slow handler) while wall-clock time passes.  A stall never reaches the
+  time limit of the run, so every stalled thread gets to run again."""
+
+  def __init__(self, inner, rng, p=0.03, durations=(1, 2, 3), max_stalls=3, only=None):
+    self.inner, self.rng, self.p, self.durations, self.left, self.only = inner, rng, p, durations, max_stalls, only
+
+  @property
+  def time_limit(self):
+    return self.inner.time_limit
+
+  @time_limit.setter
+  def time_limit(self, v):
+    self.inner.time_limit = v
+
+  def choose(self, runnable, sched):
+    return self.inner.choose(runnable, sched)
+
+  def stall(self, runnable, sched):
+    if self.left <= 0 or self.rng.random() >= self.p:
+      return None
+    cands = [vt for vt in runnable if self.only is None or vt.name.startswith(tuple(self.only))]
+    if not cands:
+      return None
+    vt = self.rng.choice(sorted(cands, key=lambda v: v.name))
+    d = self.rng.choice(self.durations)
+    if self.time_limit is not None and sched.now + d >= self.time_limit:
+      return None
+    self.left -= 1
+    return vt, d
 
 
 def explore_pb(execute, bound, max_execs):
